@@ -39,10 +39,10 @@ pub proof fn lemma_step_inv(a: A, a2: A, op: Op, n: int)
     ensures inv(a2), a2.tag.len() == a.tag.len(),
 {
     match op {
-        Op::Add(v) => { lemma_add_inv(a, a2, v); }
-        Op::Bind(v1, v2, l) => { lemma_bind_inv(a, a2, v1, v2, l, n); }
-        Op::Put(v, d) => { lemma_put_inv(a, a2, v, d); }
-        Op::Data(v) => { lemma_data_inv(a, a2, v); }
+        Op::Add(v) => { lemma_edges_ok_add(a, a2, v); lemma_add_inv(a, a2, v); }
+        Op::Bind(v1, v2, l) => { lemma_edges_ok_bind(a, a2, v1, v2, l); lemma_bind_inv(a, a2, v1, v2, l, n); }
+        Op::Put(v, d) => { lemma_edges_ok_same(a, a2); lemma_put_inv(a, a2, v); }
+        Op::Data(v) => { lemma_edges_ok_same(a, a2); lemma_data_inv(a, a2, v); }
         Op::NextId(r) => { lemma_next_id_inv(a, a2, r); }
         Op::Query => {
             assert forall|b: int| 2 <= b < 16 implies #[trigger] group_ok(a2, b) by { assert(group_ok(a, b)); }
